@@ -56,6 +56,25 @@ Fixpoint tree_same (a b : qt FOps (Seg FOps)) : bool :=
   | _, _ => false
   end.
 
+(* ---- the same tree up to 2^-40*scale in every number (same shape, same number of pieces): what a
+   harmless rewrite of the interpolation in lineClip may change.  The certificate is checked on the
+   dumped tree itself, so nothing is lost by accepting such a dump. *)
+Definition fnear (sc x y : float) : bool :=
+  fsame x y || PrimFloat.leb (PrimFloat.abs (x - y)) (0x1p-40 * sc)%float.
+Definition v2near (sc : float) (a b : V2 FOps) : bool := fnear sc (vx a) (vx b) && fnear sc (vy a) (vy b).
+Definition segnear (sc : float) (a b : Seg FOps) : bool := v2near sc (fst a) (fst b) && v2near sc (snd a) (snd b).
+Definition boxnear (sc : float) (a b : Box2 FOps) : bool := v2near sc (b2min a) (b2min b) && v2near sc (b2max a) (b2max b).
+Fixpoint tree_near (sc : float) (a b : qt FOps (Seg FOps)) : bool :=
+  match a, b with
+  | QNil, QNil => true
+  | QLeaf ba ca ha la, QLeaf bb cb hb lb =>
+      boxnear sc ba bb && v2near sc ca cb && fnear sc ha hb && forall2b (segnear sc) la lb
+  | QNode ba ca ha a0 a1 a2 a3, QNode bb cb hb b0 b1 b2 b3 =>
+      boxnear sc ba bb && v2near sc ca cb && fnear sc ha hb &&
+      tree_near sc a0 b0 && tree_near sc a1 b1 && tree_near sc a2 b2 && tree_near sc a3 b3
+  | _, _ => false
+  end.
+
 (* scale of a dumped tree: largest |coordinate| of the root box *)
 Definition tree_scale (t : ftree) : Q :=
   match t with
@@ -91,23 +110,35 @@ Definition cert (tol : Q) (tree : ftree) (sf : list (Seg FOps)) (chains : list (
            @ray_check FOps tf && @owner_check FOps tf in
   (w, w && @box_check QOps tol tq && forallb (@nondeg_b QOps) sq).
 
-(* (model rebuilds the dump, tolerant certificate, exact winding certificate, exact full certificate) *)
-Definition tcheck (c : tcase) : bool * bool * bool * bool :=
+Definition tree_scale_f0 (t : ftree) : float :=
+  match t with
+  | FN => 1%float
+  | FL (a, b, c, d) _ _ _ | FQ (a, b, c, d) _ _ _ _ _ _ =>
+      let m (x y : float) := if PrimFloat.leb x y then y else x in
+      m (m (PrimFloat.abs a) (PrimFloat.abs b)) (m (PrimFloat.abs c) (PrimFloat.abs d))
+  end.
+
+(* (model rebuilds the dump bit for bit, ... up to 2^-40*scale, tolerant certificate, exact winding
+   certificate, exact full certificate) *)
+Definition tcheck (c : tcase) : bool * bool * bool * bool * bool :=
   let '(id, ex, maxlevel, verts, tree, chains) := c in
   let sf := segsF verts in
   let built := @mesh2d FOps fnextafter (N.to_nat maxlevel) sf in
   let tol := Qred (eps40 * tree_scale tree) in
   let c0 := cert 0%Q tree sf chains in
-  (tree_same built (@itree FOps fid tree), snd (cert tol tree sf chains), fst c0, snd c0).
+  let dump := @itree FOps fid tree in
+  (tree_same built dump, tree_near (tree_scale_f0 tree) built dump, snd (cert tol tree sf chains), fst c0, snd c0).
 Definition tok (c : tcase) : bool :=
   let '(id, ex, _, _, _, _) := c in
-  let '(same, certtol, w0, full0) := tcheck c in
-  same && (N.eqb ex 2 || (certtol && (negb (N.eqb ex 1) || w0))).
+  let '(same, near, certtol, w0, full0) := tcheck c in
+  (same || near) && (N.eqb ex 2 || (certtol && (negb (N.eqb ex 1) || w0))).
 Definition mismatches_tree (cs : list tcase) : list N := map tid (filter (fun c => negb (tok c)) cs).
-(* information: trees on which the exact (tolerance 0) winding certificate does not hold *)
+(* information: trees the model does not rebuild bit for bit, or on which the exact (tolerance 0)
+   winding certificate does not hold (cut points of oblique edges are rounded) *)
 Definition inexact_tree (cs : list tcase) : list N :=
-  map tid (filter (fun c : tcase => let '(id, ex, maxlevel, verts, tree, chains) := c in
-                                    negb (fst (cert 0%Q tree (segsF verts) chains))) cs).
+  map tid (filter (fun c : tcase => let '(same, near, certtol, w0, full0) := tcheck c in negb (same && w0)) cs).
+Definition notsame_tree (cs : list tcase) : list N :=
+  map tid (filter (fun c : tcase => let '(same, near, certtol, w0, full0) := tcheck c in negb same) cs).
 
 (* ---- eval case: vertices, dumped tree, points (id, run the Q spec, on the boundary, p, fast, slow) *)
 Definition epoint := (N * bool * bool * (float * float) * float * float)%type.
